@@ -17,6 +17,10 @@ ASSUMPTIONS = [
 ]
 
 
+TIMEOUT = {'quick': 1500, 'thorough': 10800}
+WORKERS = 10
+
+
 def shards(ctx):
     specs = C.py_specs(ctx)
     from . import c19cpp
@@ -110,6 +114,7 @@ def run_shard(spec):
 def finish(ctx, merged, specs):
     merged['exhaustive_note'] = C.exhaustive_note(ctx)
     need = ['scalar/2', 'scalar/4', 'scalar/8', 'counter/4', 'flag/4', 'disc/4', 'enum/4']
+    need += ['cpp:' + x for x in need]
     missing = [f for f in need if f not in merged['features']]
     if missing and not merged['inconclusive'] and specs and specs[0]['kind'] != 'replay':
         merged['inconclusive'] = 'coverage floor not met: %s' % missing
